@@ -1025,6 +1025,7 @@ pub fn main(opts: &Opts) {
         for l in &live {
             let running = l.case.steps[l.step].clone();
             let case_id = format!("{}#{}", l.descr, l.step);
+            progress(&case_id);
             let cands = real_candidates(&running);
             sink.corr(&case_id, format!("plan cands {variant} {}", enc_running(&running)), canon_cands(&cands));
             sink.corr(&case_id, format!("plan read {variant} {}", enc_cfg(&l.cfg)), real_read_installed(&l.cfg));
@@ -1039,6 +1040,7 @@ pub fn main(opts: &Opts) {
                 }
                 Err(e) => (vec![], Err(format!("candidates: {e}"))),
             };
+            progress_idle();
             let enc_pl = enc_payloads(&payloads);
             sink.corr(&case_id, format!("plan cmp {variant} {} {} {}", enc_cfg(&l.cfg), enc_running(&running), enc_pl), "same".into());
             sink.count(&format!("step.{}", l.step));
